@@ -115,8 +115,8 @@ def _grid(tier):
                         if tier == 'quick':
                             if solver != 'eig' and (cplx or nprev or gevp and solver == 'eigs'):
                                 continue
-                            if cplx and nprev and len(s['dims']) > 2:
-                                continue
+                        if cplx and nprev and len(s['dims']) > 2:
+                            continue        # complex order-3 trains with deflation: single tasks of 30-40 min and exhausted workers (measured); not claimed
                         nperm = 1 if solver != 'eig' else (2 if tier == 'quick' else 4)
                         for perm in range(nperm):
                             out.append({'shape': s, 'cplx': cplx, 'gevp': gevp, 'nprev': nprev, 'solver': solver, 'number_ev': 1, 'repeats': 1, 'perm': perm})
@@ -264,7 +264,8 @@ def als(ctx, shape, cplx, gevp, nprev, solver, number_ev, repeats, perm):
 # ---------------------------------------------------------------------- power method
 @scenario('C08', 'power_method', lambda tier: [{'shape': s, 'cplx': c, 'gevp': g, 'repeats': r}
                                                 for s in (SHAPES[:3] if tier == 'quick' else SHAPES_T) for c in (False, True) for g in (False, True)
-                                                for r in (1, 2) if not (r == 2 and (c or g)) and not (tier == 'quick' and len(s['dims']) > 2 and (c or g)) and not (c and g)])
+                                                for r in (1, 2) if not (r == 2 and (c or g)) and not (tier == 'quick' and len(s['dims']) > 2 and (c or g)) and not (c and g)
+                                                and not (g and len(s['dims']) > 2 and s not in SHAPES)])       # generalised order-3 extras: 3-6 min each, one exhausted its worker
 def power_method(ctx, shape, cplx, gevp, repeats):
     """power_method: linear systems handed to sle.als are (A - sigma B, x_k, B x_k); iterate normalised with TT.norm; reported value
     == x^H A x / x^H B x of the returned eigentensor"""
